@@ -1,5 +1,5 @@
 (* Props/C09.v — property C09: virtual easy samples behave like materialised extreme scores. Statements only. *)
-From SA Require Import Model.Symmetry Proofs.SymmetryFacts.
+From SA Require Import Model.Symmetry Model.Auc Proofs.SymmetryFacts Proofs.MaterialiseAucFacts.
 Open Scope Q_scope.
 
 (* Confusion matrices: for every Scores object with k, m >= 0 easy samples, every configuration and
@@ -15,9 +15,22 @@ Theorem C09_cm : forall (s : scores) (ppos pneg : Q) (t : ext),
 Proof. exact materialise_cm. Qed.
 Print Assumptions C09_cm.
 
-(* _partial: equality of full/partial AUC and of the thresholds returned for in-range targets between
-   the two objects is not a theorem here; it is checked on the implementation on every run
-   (harness/props/C09.py: bit-exact on stream E, a few ulp / 1e-12 otherwise). *)
+(* Full AUC: the object with k easy positives and m easy negatives has the same full AUC (FPR on x,
+   TPR on y) as the object in which those samples are actual scores lying strictly beyond all other
+   scores on their own class's side ([beyond]); arbitrary ties among the scored samples, all four
+   configurations, any carrier (np.nextafter) — both equal their Mann-Whitney statistic (C07). *)
+Theorem C09_full_auc :
+  forall (isD : Q -> Prop) (succ pred : Q -> Q), carrier isD succ pred ->
+  forall (s : scores) (ppos pneg : Q),
+  pos s <> [] -> neg s <> [] -> (0 <= easy_pos s)%Z -> (0 <= easy_neg s)%Z ->
+  Forall isD (pos s ++ neg s) -> isD ppos -> isD pneg -> beyond s ppos pneg ->
+  auc succ pred (materialise s ppos pneg) 0 1 AFpr ATpr == auc succ pred s 0 1 AFpr ATpr.
+Proof. exact materialise_full_auc. Qed.
+Print Assumptions C09_full_auc.
+
+(* _partial: equality of PARTIAL AUC and of the thresholds returned for in-range targets between the
+   two objects is not a theorem here; it is checked on the implementation on every run
+   (harness/props/C09.py: a few ulp / 1e-12). *)
 
 Example C09_example :
   let s := mk_scores [2#1; 3#1] [1#1; 2#1] 2 1 Pos Pos false in
